@@ -10,11 +10,20 @@ from ..harness import Session
 
 DESTS = ("unknown", "awake", "sleeping")
 BUFFERS = (None, True, False)  # None = default argument
-NODE = 1
+NODE = 12
+BYSTANDER = 1  # another sleeping node whose decimal id is a prefix of NODE's
 
 
 def build(version: str, dest: str) -> Session:
     s = Session(version)
+    # a bystander: known, with a child, sleeping (what is held for NODE is none of its business)
+    s.line(f"{BYSTANDER};255;0;0;17;{version}")
+    s.line(f"{BYSTANDER};3;0;0;3;")
+    wt0 = R.wake_type(version)
+    if wt0 is not None:
+        s.line(f"{BYSTANDER};255;3;0;{wt0};0")
+    else:
+        s.gateway.nodes[BYSTANDER].sleeping = True
     if dest != "unknown":
         s.line(f"{NODE};255;0;0;17;{version}")
         s.line(f"{NODE};3;0;0;3;")
@@ -29,12 +38,23 @@ def build(version: str, dest: str) -> Session:
     return s
 
 
+class WakeResult:
+    def __init__(self, writes, early):
+        self.writes = writes
+        self.early = early  # what was written before the destination's own wake
+
+
 def wake(s: Session, version: str):
-    """Next wake of the destination. Under 1.x a wake can only exist after a 2.2 version report."""
+    """Traffic that is not the destination's wake (its own reports, the bystander's wake), then the next
+    wake of the destination. Under 1.x a wake can only exist after a 2.2 version report."""
     if not R.is2x(version):
         s.line("0;255;3;0;2;2.2.0")
         version = "2.2"
-    return s.line(f"{NODE};255;3;0;{R.wake_type(version)};0")
+    early = []
+    for line in (f"{NODE};3;1;0;2;r", f"{NODE};255;3;0;0;50", f"{NODE};3;0;0;3;again", f"{BYSTANDER};255;3;0;{R.wake_type(version)};0", f"{BYSTANDER};3;1;0;2;r"):
+        early += s.line(line).writes
+    out = s.line(f"{NODE};255;3;0;{R.wake_type(version)};0")
+    return WakeResult(out.writes, early)
 
 
 def cases(version: str) -> list:
@@ -84,7 +104,9 @@ def check_case(version: str, f: tuple, buf, dest: str) -> list:
         return viols
     w = wake(s, version)
     n = w.writes.count(line)
-    if n == 0:
+    if line in w.early:
+        bad("released-by-other-traffic", f"held, but written before the destination's own wake (by its non-wake reports or another node's wake): {w.early}")
+    elif n == 0:
         bad("silently-discarded", f"returned normally, wrote nothing, and the destination's next wake wrote {w.writes}")
     elif n > 1:
         bad("released-twice", f"the next wake wrote it {n} times")
@@ -126,7 +148,10 @@ def check_sequence(version: str, seq: list, buf, dest: str) -> list:
             f = line.split(";", 5)
             last_per_key[(f[0], f[1], f[2], f[4])] = line
         for key, line in last_per_key.items():
-            if w.writes.count(line) != 1:
+            if line in w.early:
+                viols.append((f"C12|seq|buffer={buf}|dest={dest}|released-by-other-traffic", f"[{version}] sends {seq}: held {line!r} was written before the destination's own wake: {w.early}",
+                              {"version": version, "seq": [list(x) for x in seq], "buffer": buf, "dest": dest}))
+            elif w.writes.count(line) != 1:
                 viols.append((f"C12|seq|buffer={buf}|dest={dest}|silently-discarded", f"[{version}] sends {seq}: held {line!r} was written {w.writes.count(line)} times at the next wake ({w.writes})",
                               {"version": version, "seq": [list(x) for x in seq], "buffer": buf, "dest": dest}))
     return viols
@@ -193,7 +218,7 @@ def run(ctx: core.Ctx) -> core.Report:
         level="exploration",
         coverage=cov,
         violations=viols,
-        assumptions=["under 1.x a wake is produced by first reporting version 2.2.0", "one destination node, one known child"],
+        assumptions=["under 1.x a wake is produced by first reporting version 2.2.0", "destination node 12 with one known child; a sleeping bystander node 1; between the send and the destination's wake the destination reports a value, its battery and re-presents a child, and the bystander wakes"],
     )
 
 
